@@ -167,9 +167,13 @@ where
 			n => Some(n),
 		};
 
-		if let Ok(e) = slate.calc_excess(keychain.secp()) {
-			t.kernel_excess = Some(e)
-		}
+		// The kernel excess of a send is only known when it is finalized (`update_stored_tx`
+		// records it then). What could be computed from the slate at hand here is the sum of
+		// the keys of whoever's data it carries - for the recipient's reply, a key the
+		// recipient chose: an entry recorded with the excess of a kernel that is already on
+		// chain would be found 'confirmed' by the kernel look-up of the next refresh without
+		// ever having been finalized, and could then not be cancelled any more. Only the payer
+		// of an invoice, who does not see the final slate, knows the excess at this point.
 		if let Some(e) = excess_override {
 			t.kernel_excess = Some(e)
 		}
